@@ -1,0 +1,26 @@
+//go:build verif
+
+package mysql
+
+import (
+	"github.com/cossacklabs/acra/decryptor/base"
+	"github.com/cossacklabs/acra/encryptor/mysql"
+)
+
+// Verification hook (add-only, compiled with -tags verif only).
+
+// VerifS65QueryEncryptors returns the query encryptors with a DataEncryptor among the handler's query observers
+// (the one proxyFactory.New built with mysql.NewQueryEncryptor), in observer order.
+func VerifS65QueryEncryptors(p base.Proxy) []*mysql.QueryDataEncryptor {
+	var out []*mysql.QueryDataEncryptor
+	am, ok := p.(*Handler).queryObserverManager.(*mysql.ArrayQueryObservableManager)
+	if !ok {
+		return nil
+	}
+	for _, o := range am.VerifS55Observers() {
+		if v, ok := o.(*mysql.QueryDataEncryptor); ok && v.VerifS55DataEncryptor() != nil {
+			out = append(out, v)
+		}
+	}
+	return out
+}
